@@ -538,7 +538,9 @@ def run_check(ctx, args):
                                   "impl": tb[-600:], "model": "the harness expected this call to return"})
 
     # ---------------- layer C: widened search when A or B broke
-    if (ctx.broken or ctx.disagreements) and not ctx.violations and hasattr(mod, "search"):
+    # VERIF_FORCE_SEARCH=1 runs the widened search although nothing broke — used to confirm that the search itself is quiet on the
+    # unchanged tree (a replay it produces must fail only with a change)
+    if (ctx.broken or ctx.disagreements or os.environ.get("VERIF_FORCE_SEARCH") == "1") and not ctx.violations and hasattr(mod, "search"):
         ctx.notes.append("widened failing-input search ran")
         try:
             mod.search(ctx)
